@@ -25,6 +25,8 @@
 #include <unifex/sender_concepts.hpp>
 #include <unifex/type_list.hpp>
 
+#include <functional>
+
 #include <unifex/detail/prologue.hpp>
 
 namespace unifex {
@@ -90,6 +92,14 @@ public:
           -> std::invoke_result_t<CPO, const Receiver&> {
     return cpo(self.receiver_);
   }
+
+#if UNIFEX_ENABLE_CONTINUATION_VISITATIONS
+  template <typename Visit>
+  friend void
+  tag_invoke(tag_t<visit_continuations>, const type& r, Visit&& visit) {
+    std::invoke(visit, r.receiver_);
+  }
+#endif
 
 private:
   UNIFEX_NO_UNIQUE_ADDRESS Operation& op_;
